@@ -118,6 +118,10 @@ class ndarray:
         return self._d[_idx(k)]
 
     def __setitem__(self, k, v):
+        if isinstance(k, slice):
+            vals = list(v._d) if isinstance(v, ndarray) else list(v)
+            self._d[k] = [ndarray(r) if isinstance(r, (list, tuple)) else r for r in vals]
+            return
         self._d[_idx(k)] = v
 
     def __repr__(self):
@@ -322,13 +326,17 @@ def unique(x, axis=None, return_index=False, return_counts=False):
     if isinstance(x, ndarray) and axis is not None:
         if x.dtype.name == "object":
             raise TypeError("The axis argument to unique is not supported for dtype object")
-        rows = [list(r._d) for r in x._d]
+        rows = [list(r._d) if isinstance(r, ndarray) else list(r) for r in x._d]
         if not rows:
             return ndarray([])
-        order = sort_positions([[r[j] for r in rows] for j in range(len(rows[0]))], stable=True)
+        from .pdcore import all_concrete
+        if all(all_concrete(r) for r in rows):
+            order = sort_positions([[r[j] for r in rows] for j in range(len(rows[0]))], stable=True)
+        else:
+            order = range(len(rows))     # distinct rows in first-occurrence order (row order not modelled)
         out = []
         for i in order:
-            if out and all_(ndarray([E.seq(a, b) for a, b in zip(out[-1], rows[i])])):
+            if any(bool(all_(ndarray([E.seq(a, b) for a, b in zip(o, rows[i])]))) for o in out):
                 continue
             out.append(rows[i])
         return ndarray(out)
